@@ -108,8 +108,8 @@ theorem eq_enum_tokens (name : String) (g : Generics) (variants : List VariantE)
 `T: ::core::cmp::Eq + ?Sized` -/
 theorem eqChecker_shape (e : GToks) :
     (eqChecker e).strs =
-      ["{", "fn", "_eq", "<", "T", ":", "::", "core", "::", "cmp", "::", "Eq", "+", "?", "::", "core", "::", "marker", "::", "Sized", ">",
-       "(", "__this", ":", "&", "T", ")", "{", "}", "_eq", "(", "&", "("] ++ e.strs ++ [")", ")", "}"] := by
+      ["{", "fn", "__assert_eq", "<", "__T", ":", "::", "core", "::", "cmp", "::", "Eq", "+", "?", "::", "core", "::", "marker", "::", "Sized", ">",
+       "(", "__this", ":", "&", "__T", ")", "{", "}", "__assert_eq", "(", "&", "("] ++ e.strs ++ [")", ")", "}"] := by
   simp [eqChecker, brace, paren, absPath, GToks.strs, GTok.strs, gapp, gcons, OfStr.ofStr, List.flatMap_append,
     List.flatMap_cons]
 
